@@ -50,6 +50,10 @@ structure Client (PK ID : Type) where
 /-- `client.SetPublicKey(key)`. -/
 def Client.ofPublicKey (H : PK → ID) (pk : PK) : Client PK ID := { id := clientId H pk, publicKey := pk }
 
+/-- setting a (new) public key on an existing client object — `SetPublicKey`, `SetSignatureScheme`, decoding a new
+`public_key` followed by `ComputeProperties`: the id is recomputed from the key that is set. -/
+def Client.setPublicKey (H : PK → ID) (_c : Client PK ID) (pk : PK) : Client PK ID := Client.ofPublicKey H pk
+
 /-- `Client.Validate` / `encryption.VerifyPublicKeyClientID`: the id must be the hash of the public key. -/
 def Client.validate [DecidableEq ID] (H : PK → ID) (c : Client PK ID) : Bool := decide (c.id = H c.publicKey)
 
